@@ -102,6 +102,9 @@ def materialise_budget(root, b, rnd):
                  '    format: "%s"' % RC.format_string(s['layout'], 'plain' if negkey else s['sign'])]
         if negkey:
             lines.append('    negate_amount: true')
+        if (si + len(b['sources']) + len(s['layout'])) % 3 == 1:
+            # a leftover of the deprecated way to describe a source, next to the format string that replaced it: the format decides
+            lines.insert(2, '    type: %s' % ('amex', 'boa', 'csv')[(si + len(s['name'])) % 3])
         if s['dec'] == 'comma':
             lines.append('    decimal_separator: ","')
         if not s['header']:
